@@ -156,3 +156,52 @@ func Harness_C18_leave_message() {
 		v.Cover("no-ack")
 	}
 }
+
+// Harness_C03_join_message: what the real Gossip.join exchanges with the node
+// it joins: its whole own state and its whole digest go out (the other side
+// answers the digest with everything the joiner lacks), the answer is applied,
+// the exchange is bounded by a deadline and the connection is released.
+func Harness_C03_join_message() {
+	v.Tag("c13-codec")
+	v.Tag("c18-dial")
+	s, ms := vMembership(v.Param("N", 2), nil)
+	s.UpsertLocal("mine", v.Str("value"))
+	wantLocal := vSnapshot(s.nodes["obs"])
+
+	vCodecReset(0)
+	vDecMode, vDecBudget = 0, 2
+	vArbMax = 1
+	vDialedConn = &vConn{}
+	g := &Gossip{state: s, dialer: &net.Dialer{}, metrics: newMetrics(), logger: log.NewNopLogger()}
+	before := len(s.nodes)
+	_, err := g.join("peer:7000")
+	v.Assert("C03/join-message/dials-the-peer", vDialedAddr == "peer:7000")
+	v.Assert("C03/join-message/bounded-by-deadline", vDialedConn.unguarded == 0)
+	v.Assert("C03/join-message/connection-released", vDialedConn.closed)
+	v.Assert("C03/join-message/header-delta-digest", len(vEncItems) == 3)
+	if len(vEncItems) == 3 {
+		hdr, isHdr := vEncItems[0].val.(*joinHeader)
+		v.Assert("C03/join-message/names-the-joiner", isHdr && hdr.NodeID == "obs")
+		d, isDelta := vEncItems[1].val.(delta)
+		v.Assert("C03/join-message/own-state-whole", isDelta && len(d) == 1 && d[0].ID == "obs" && len(d[0].Entries) == len(wantLocal))
+		if isDelta && len(d) == 1 {
+			for _, e := range d[0].Entries {
+				v.Assert("C03/join-message/own-state-whole", wantLocal[e.Key] == e)
+			}
+		}
+		dg, isDigest := vEncItems[2].val.(digest)
+		v.Assert("C03/join-message/digest-lists-every-known-node", isDigest && len(dg) == 1+len(ms))
+	}
+	if err == nil {
+		v.Assert("C03/join-message/answer-read", vDecCalls >= 2)
+		v.Cover("joined")
+	} else {
+		// nothing was applied from a failed exchange
+		v.Assert("C03/join-message/failed-exchange-applies-nothing", len(s.nodes) == before)
+		v.Cover("join-failed")
+	}
+	// the local node's own state is never altered by the answer
+	for k, e := range wantLocal {
+		v.Assert("C03/join-message/own-state-untouched", s.nodes["obs"].Entries[k] == e)
+	}
+}
